@@ -53,7 +53,7 @@ victim thread inside its wait,
     dm-on-dlc / cc-on-dlc    DM / CC for an established connection (nfcpy ignores them)
 to victims blocked in recv / poll recv / poll acks / send on a closed window / poll send on an established
 connection, in accept() on a listening socket and in connect() in progress (there: ui, unknown, frmr, dm).  k exchanges
-(0..20) after the events have taken effect the link ends by the cause of the case.  The oracle is unchanged: a
+(0..30) after the events have taken effect the link ends by the cause of the case.  The oracle is unchanged: a
 victim may return at the reject (what nfcpy does) or when the link ends, it must not stay blocked; the cause in
 the signature becomes <event>+<cause>.  After its first call returned a victim issues the same call once more on
 the (now shut down) socket, which has to come back too.
@@ -99,7 +99,7 @@ RULE = ("case = (cause of termination x end that experiences it x deactivate var
         "instead of the PDU level FakeMac and 1 of 10 the complete path (two real ContactlessFrontend.connect(llcp=..) "
         "calls, real nfc.clf.udp driver and nfc.dep over the in-memory FakeNet with the fault injected at socket level); "
         "the other schedules are randomised by yield injection. Frame-reject cases (2 per shard quick, 12 thorough) "
-        "add: 8 causes x delay k in (0,1,3,8,20) exchanges, enumerated, x 10 victims per end out of 43 enumerated "
+        "add: 8 causes x delay k in (0,2,5,12,30) exchanges, enumerated, x 10 victims per end out of 43 enumerated "
         "(blocked call x frame-reject event) combinations - recv / poll recv / poll acks / send on a closed window / "
         "poll send on an established connection, accept, connect in progress x FRMR received, I PDU with wrong N(S), "
         "oversized I PDU, UI, PDU of reserved type 1011, DM, CC sent by a raw access point of the peer when the victim is seen waiting - "
@@ -296,7 +296,7 @@ def make_desc(i, seed, rng):
 
 # frame-reject cases ----------------------------------------------------------------------------------------
 FR_CAUSES = CAUSES[:7] + [("unencodable-ui", "A", "noop")]
-FR_DELAYS = (0, 1, 3, 8, 20)                   # exchanges between "events took effect" and the end of the link
+FR_DELAYS = (0, 2, 5, 12, 30)                  # exchanges between "events took effect" and the end of the link
 FR_EVENTS = ("frmr-received", "frmr-sent-ns", "frmr-sent-miu", "ui-on-dlc", "unknown-on-dlc", "dm-on-dlc", "cc-on-dlc")
 FR_ESTABLISHED = ("recv", "poll-recv", "poll-acks", "send", "poll-send")
 FR_COMBOS = [[k, e] for e in FR_EVENTS for k in FR_ESTABLISHED] + \
@@ -326,8 +326,9 @@ def make_fr_desc(f, seed, rng):
          "stagger": rng.choice([0, 0, 1, 3]), "servers": rng.choice(["AB", "AB", "A", "B"])}
     if cause in UNENC:
         d["how"] = UNENC_HOW[cause][(j // len(FR_CAUSES)) % 2]
-    if f % 8 in (3, 7):
-        d["mac"] = "dep" if f % 8 == 3 else "udp"
+    m = (f + f // 8) % 8                 # 1 of 8 over the real nfc.dep, 1 of 8 the complete udp path; every cause
+    if m in (3, 7):
+        d["mac"] = "dep" if m == 3 else "udp"
         d["lto"] = 250
     return d
 
@@ -376,6 +377,8 @@ class Ctx:
         self.fr_pending = 2                  # injectors that have not finished
         self.fr_ready_at = None              # exchange count at which all events had taken effect
         self.xn = 0                          # exchanges seen by the MAC hook (initiator side)
+        self.fr_deferred = []                # the ordinary roles of a frame-reject case (started after the events)
+        self.fr_done = threading.Event()     # injectors finished, ordinary roles started
 
     def due(self, n):
         """the planned end of the link is due: at exchange k, or (frame-reject cases) k exchanges after the events"""
@@ -961,7 +964,15 @@ def fr_injector(w):
         with ctx.fr_lock:
             ctx.fr_pending -= 1
             if ctx.fr_pending <= 0:
+                # now the ordinary roles: nfcpy's collect() serves the lowest SAP with a PDU first, their traffic
+                # would hold back the CC / FRMR PDUs of the victims' connections for thousands of exchanges
+                stag = ctx.desc.get("stagger", 0)
+                for i, r in enumerate(ctx.fr_deferred):
+                    r.start()
+                    if stag and i % stag == 0:
+                        _real_time.sleep(0.0005)
                 ctx.fr_ready_at = ctx.xn
+                ctx.fr_done.set()
 
 
 ROLES = {
@@ -1294,7 +1305,7 @@ class AirClf:
 
     def exchange(self, data, timeout):
         pair, ctx, pipe, d = self.pair, self.ctx, self.pair.pipe, self.ctx.desc
-        cause, end, k = d["cause"], d["end"], d["k"]
+        cause, end = d["cause"], d["end"]
         if self.side == "I":
             with pipe.lock:
                 pipe.exchanges += 1
@@ -1387,7 +1398,7 @@ def extend_macs(pair, ctx):
         return dep_macs(pair, ctx)
     d = ctx.desc
     pipe = pair.pipe
-    cause, end, k, deact = d["cause"], d["end"], d["k"], d["deact"]
+    cause, end, deact = d["cause"], d["end"], d["deact"]
     st = {"t_n": 0, "owes": False}
 
     def i_exchange(self, data, timeout):
@@ -1553,6 +1564,8 @@ def flag_blocked(ctx, res, th, info, phase):
     cause = ctx.cause_at(end)
     if getattr(th, "fr_event", None):
         cause = "%s+%s" % (th.fr_event, cause)      # its connection suffered this frame-reject event before
+    elif kind == "run-loop" and any(v.end == end and v.fr.get("injected") for v in ctx.fr_workers):
+        cause = "frame-reject-event+" + cause       # the link loop stopped after such events were sent to this end
     if not info.blocked_forever_in_nfc():
         return False
     if age == "old":
@@ -1638,7 +1651,11 @@ def start_roles(ctx, desc):
         for e in "AB":
             Worker(ctx, e, "fr-inject", fr_injector, 1).start()
     for i, (name, e) in enumerate(desc["roles"]):
-        Worker(ctx, e, name, ROLES[name], 1).start()
+        w = Worker(ctx, e, name, ROLES[name], 1)
+        if ctx.fr is not None:
+            ctx.fr_deferred.append(w)
+            continue
+        w.start()
         if stag and i % stag == 0:
             _real_time.sleep(0.0005)
 
@@ -1657,10 +1674,18 @@ def finish_case(ctx, env, res):
     if status != "done":
         stuck = False
         for th, info in infos.items():
-            stuck |= bool(flag_blocked(ctx, res, th, info, "run"))
+            if flag_blocked(ctx, res, th, info, "run"):
+                stuck = True
+                ctx.abandoned.add(th)
+                th._vf_info = info
         if not stuck:
             res.inconc.append("run loops neither ended nor blocked in nfc (%s): %s"
                               % (status, [i.stack[:4] for i in infos.values()]))
+            return res, ctx
+        if ctx.fr is not None:
+            # a link loop that is blocked forever (it holds the link controller lock) is the verdict of this case;
+            # everything else would be a consequence of it, and a very slow one to establish thread by thread
+            ctx.fire.set()
             return res, ctx
     res.times.append(("runs-ended", _real_time.time()))
     ctx.fire.set()                               # link ended before exchange k: the call is made afterwards
@@ -1715,6 +1740,9 @@ def finish_case(ctx, env, res):
     def phase1_threads():
         return [w for w in ctx.workers if w.phase == 1 and w not in ctx.abandoned] + \
                [t for t in service_threads(ctx) if t not in ctx.abandoned]
+    if ctx.fr is not None and not ctx.fr_done.wait(20.0):
+        res.inconc.append("frame-reject case: the injector threads did not finish (harness)")
+        return res, ctx
     if not settle(ctx, env, res, phase1_threads, "at-termination"):
         return res, ctx
     res.times.append(("phase1-settled", _real_time.time()))
@@ -1770,7 +1798,7 @@ def run_case_udp(desc, env):
     res.times = [("start", _real_time.time())]
     env.mon.reset(desc["yield_p"], random.Random(desc["yield_seed"]))
     ctx.env_mon = env.mon
-    cause, end, k = desc["cause"], desc["end"], desc["k"]
+    cause, end = desc["cause"], desc["end"]
     net = fakenet.FakeNet(clock="virtual", keep_frames=False, stall_limit=10.0)
     st = {"n": 0, "broken": False, "term": {"A": False, "B": False}, "connected": {"A": False, "B": False}}
     up = threading.Event()
@@ -1995,13 +2023,18 @@ def cleanup(ctx):
         info = getattr(th, "_vf_info", None)
         if info is not None:
             watch.wake(info)
-    for llc in [ctx.llc(e) for e in "AB" if ctx.pair and (e in ctx.llcs or getattr(ctx.pair, "a", None))]:
-        try:
-            for sap in list(llc.sap):
-                if sap is not None:
-                    sap.shutdown()
-        except Exception:
-            pass
+    def shutdown_saps():
+        for llc in [ctx.llc(e) for e in "AB" if ctx.pair and (e in ctx.llcs or getattr(ctx.pair, "a", None))]:
+            try:
+                for sap in list(llc.sap):
+                    if sap is not None:
+                        sap.shutdown()
+            except Exception:
+                pass
+    # in a thread: a link loop that is blocked forever holds the link controller lock this needs
+    t = threading.Thread(target=shutdown_saps, name="vf-cleanup-saps", daemon=True)
+    t.start()
+    t.join(2.0)
 
     def closer():
         for s in ctx.socks:
